@@ -64,11 +64,15 @@ func TestReplay(t *testing.T) {
 		var h struct {
 			Scenario c07Scenario `json:"scenario"`
 			Fault    *c08Fault   `json:"fault"`
+			IDSeed   uint64      `json:"id_seed"`
 		}
 		if err := json.Unmarshal(j.Header, &h); err != nil {
 			t.Fatalf("header: %v", err)
 		}
-		r := c08Run(h.Scenario, h.Fault, 1)
+		if h.IDSeed == 0 {
+			h.IDSeed = 1
+		}
+		r := c08Run(h.Scenario, h.Fault, h.IDSeed)
 		if r.err != nil && h.Fault != nil && c08Classify(r, h.Fault) != "" {
 			fmt.Printf("KNOWN-FINDING: property=C08 %s (replayed)\n", c08Classify(r, h.Fault))
 			return
